@@ -38,7 +38,7 @@ def b01 (s : String) : Option Bool := if s = "1" then some true else if s = "0" 
 def parseEv (t : String) : Option Ev :=
   match t.splitOn "," with
   | ["pc", p, t, us, th] => do
-      let us ← (us.splitOn "+").mapM String.toNat?
+      let us ← if us = "-" then some [] else (us.splitOn "+").mapM String.toNat?   -- "-": a Publish call without messages
       pure (.pc (← p.toNat?) (← t.toNat?) us (← th.toNat?))
   | ["pr", p, r] => do pure (.pr (← p.toNat?) r)
   | ["sc", s, t] => do pure (.sc (← s.toNat?) (← t.toNat?))
